@@ -304,6 +304,10 @@ pub fn arb_case(p: TreeParams) -> BoxedStrategy<Case> {
             // numbers of 8-40 characters and header-looking strings now and then
             if isel % 11 == 0 {
                 args.doc = M::Num(N::U(10_000_000 + isel as u64 * 7_919_000_003));
+            } else if isel % 11 == 2 {
+                // top-level numbers with a special reading
+                let specials = [N::F(-0.0), N::U(0), N::F(1e16), N::U((1 << 53) + 1), N::I(i64::MIN), N::U(u64::MAX), N::F(0.1), N::F(-9223372036854775808.0), N::F(5e-324), N::I(-1)];
+                args.doc = M::Num(specials[(isel / 11) as usize % specials.len()]);
             } else if isel % 11 == 1 {
                 args.doc = M::Str(format!("abc{}", "Hello P@0 ".repeat((isel % 3) as usize + 1)));
             }
